@@ -56,9 +56,13 @@ Definition check_case (c : case) : N :=
              | OAdd | OSub | OMul | OInc | ODec | OAbs =>
                  negb (arith_value_domain o args (o_res m)) || (v_m && lowest_res (o_res m))
              | _ => true end in
+  (* "never alter their operands": M never does (operands_untouched), so operands that differ afterwards
+     are a failing input whatever the operation and the representation of the operands *)
+  let untouched := list_eqb val_eqb args after in
   if agree then (if (dom && negb s_m) || (value_domain o args && negb v_m) || negb d_m then 3%N else 0%N)
   (* a failing input: the implementation leaves S inside the guard, or on an input where the model
      (the unchanged code) met S *)
+  else if negb untouched then 2%N
   else if (dom || s_m) && negb s_obs then 2%N
   else match s_out o args with
        | Some so => (* ... or the values were exact (whatever the representation) and no longer are *)
